@@ -387,7 +387,8 @@ fn meta_of<M: Metadata>(m: &M) -> DecOut {
 /// how many more times `drain_with` calls a reader after its first error (results ignored)
 const AFTER_ERROR_CALLS: usize = 2;
 
-pub fn drain_with<R: Read>(r: R, kind: ReaderKind, read_size: usize) -> Result<(u64, Option<String>), String> {
+pub fn drain_with<R: Read>(r: R, kind: ReaderKind, read_size: usize, input_len: usize) -> Result<(u64, Option<String>), String> {
+    let error_cap = input_len + 16;
     let rs = read_size.max(1);
     let mut n = 0u64;
     let mut err = None;
@@ -446,8 +447,21 @@ pub fn drain_with<R: Read>(r: R, kind: ReaderKind, read_size: usize) -> Result<(
                     Ok(_) => n += 1,
                     Err(e) => {
                         err = Some(e.to_string());
-                        for _ in 0..AFTER_ERROR_CALLS {
-                            let _ = rd.next();
+                        // exhausting the iterator must terminate even when errors are ignored:
+                        // every failed frame read consumes input, so errors are bounded by its size
+                        let mut errors = 0usize;
+                        let mut items = 0u64;
+                        while let Some(x) = rd.next() {
+                            items += 1;
+                            if x.is_err() {
+                                errors += 1;
+                                if errors > error_cap {
+                                    panic!("FV_HANG: sample iterator yields more errors than the input has bytes");
+                                }
+                            }
+                            if items > (1 << 26) {
+                                break;
+                            }
                         }
                         break;
                     }
